@@ -1,17 +1,11 @@
 (** C16 — run-order lemmas about Model/RunOrder.v, for arbitrary extension behaviours. *)
-From KV Require Import Bytes RustStd Registry PresentLine RunOrder RegistryProofs.
+From KV Require Import Bytes RustStd Registry PresentLine RunOrder RunSpec RegistryProofs PresentLineProofs.
 From Coq Require Import ZifyBool ZifyNat ZifyN FinFun.
 Open Scope N_scope.
 
 (** ---- Prime: sequential, each sees the rewrites of the earlier ones ---- *)
 Definition prime_state (l : list (Z * prime_ext)) (st : bytes * option bytes) : bytes * option bytes :=
   fold_left (fun s e => prime_apply (snd e) s) l st.
-
-Definition event_prio (e : event) : option Z :=
-  match e with
-  | EPrime i _ | EPrepareFn i _ | EPresentFn i | EPackage i | EPost i => Some i
-  | _ => None
-  end.
 
 Lemma resolve_prime_state l : forall st, fst (resolve_prime l st) = prime_state l st.
 Proof.
@@ -55,12 +49,12 @@ Proof.
 Qed.
 
 (** ---- Prepare ---- *)
-Lemma prepare_single_first_model single fns st h :
+Lemma prepare_single_first_model {R} (single : list (bytes * (bytes -> R))) fns st h :
   assoc (prepare_key st) single = Some h ->
   resolve_prepare single fns st = (Some (h (fst st)), [EPrepareSingle (prepare_key st) (fst st)]).
 Proof. intros H. unfold resolve_prepare. rewrite H. reflexivity. Qed.
 
-Lemma first_match_split l1 : forall i pred h l2 path,
+Lemma first_match_split {R} (l1 : list (Z * ((bytes -> bool) * (bytes -> R)))) : forall i pred h l2 path,
   Forall (fun e => fst (snd e) path = false) l1 -> pred path = true ->
   first_match (l1 ++ (i, (pred, h)) :: l2) path = Some (i, h).
 Proof.
@@ -69,13 +63,14 @@ Proof.
   - inversion HF; subst. cbn [snd fst] in *. rewrite H1. apply IH; assumption.
 Qed.
 
-Lemma first_match_none l path : Forall (fun e => fst (snd e) path = false) l -> first_match l path = None.
+Lemma first_match_none {R} (l : list (Z * ((bytes -> bool) * (bytes -> R)))) path :
+  Forall (fun e => fst (snd e) path = false) l -> first_match l path = None.
 Proof.
   induction l as [|[j [p g]] r IH]; intros HF; [reflexivity|].
   inversion HF; subst. cbn [first_match snd fst] in *. rewrite H1. apply IH. assumption.
 Qed.
 
-Lemma first_predicate_only_model single l1 i pred h l2 st :
+Lemma first_predicate_only_model {R} (single : list (bytes * (bytes -> R))) l1 i pred h l2 st :
   assoc (prepare_key st) single = None ->
   Forall (fun e => fst (snd e) (fst st) = false) l1 -> pred (fst st) = true ->
   resolve_prepare single (l1 ++ (i, (pred, h)) :: l2) st = (Some (h (fst st)), [EPrepareFn i (fst st)]).
@@ -83,7 +78,7 @@ Proof.
   intros H HF Hp. unfold resolve_prepare. rewrite H, (first_match_split l1 i pred h l2 _ HF Hp). reflexivity.
 Qed.
 
-Lemma no_prepare_model single fns st :
+Lemma no_prepare_model {R} (single : list (bytes * (bytes -> R))) fns st :
   assoc (prepare_key st) single = None -> Forall (fun e => fst (snd e) (fst st) = false) fns ->
   resolve_prepare single fns st = (None, []).
 Proof. intros H HF. unfold resolve_prepare. rewrite H, (first_match_none _ _ HF). reflexivity. Qed.
@@ -118,65 +113,123 @@ Proof.
   - rewrite <- (map_map fst EPost). apply FinFun.Injective_map_NoDup; [|exact ND]. intros a b [= E]. exact E.
 Qed.
 
-(** ---- the whole request: every stage, in this order ---- *)
+(** ---- the whole request ---- *)
 Definition is_present_event (e : event) : Prop :=
   match e with EPresentFn _ | EPresentFile _ | EPresentInternal _ _ => True | _ => False end.
+Definition is_prepare_event (e : event) : Prop :=
+  match e with EPrepareSingle _ _ | EPrepareFn _ _ => True | _ => False end.
 
-Lemma present_events_are pfns pfile pint path entries : Forall is_present_event (present_events pfns pfile pint path entries).
+Lemma present_events_are pfns pfile pint uri entries : Forall is_present_event (present_events pfns pfile pint uri entries).
 Proof.
   unfold present_events. apply Forall_app. split; [|apply Forall_app; split].
   - apply Forall_forall. intros e He. apply in_map_iff in He as (x & <- & _). exact I.
-  - destruct (path_extension path) as [e|]; [|constructor]. destruct (bmem e pfile); repeat constructor.
+  - destruct (path_extension (uri_path uri)) as [e|]; [|constructor]. destruct (bmem e pfile); repeat constructor.
   - apply Forall_forall. intros e He. apply in_map_iff in He as (x & <- & _). exact I.
 Qed.
 
-Lemma serve_stages_model parse (b : behaviours) (path : bytes) :
-  (forall d, exists r, parse d = Ok r) ->
-  exists status body present_tr,
-    serve parse b path =
+Lemma resolve_prepare_events {R} (single : list (bytes * (bytes -> R))) fns st :
+  Forall is_prepare_event (snd (resolve_prepare single fns st)).
+Proof.
+  unfold resolve_prepare. destruct (assoc (prepare_key st) single); [repeat constructor|].
+  destruct (first_match fns (fst st)) as [[i h]|]; repeat constructor.
+Qed.
+
+(** Every response — generated or served from the cache, to GET, HEAD or another method, for a
+    safe or an unsafe path, with or without a range — is answered (no panic) and its trace is:
+    the Prime extensions, then (only when the response is generated) at most one Prepare and the
+    Present extensions, then every Package, then every Post extension. *)
+Lemma package_post_every_response_model parse (h : hostcfg) (c : cache) (r : creq) :
+  (forall d, exists x, parse d = Ok x) ->
+  exists status body prep pres,
+    fst (serve parse h c r) =
     (Ok (status, body),
-     snd (resolve_prime (b_prime b) (path, None))
-     ++ snd (resolve_prepare (b_single b) (b_prepare_fn b) (prime_state (b_prime b) (path, None)))
-     ++ present_tr
-     ++ map (fun e => EPackage (fst e)) (b_package b)
-     ++ map (fun e => EPost (fst e)) (b_post b))
-    /\ Forall is_present_event present_tr.
+     snd (resolve_prime (b_prime (h_b h)) (q_uri r, None)) ++ prep ++ pres
+     ++ map (fun e => EPackage (fst e)) (b_package (h_b h))
+     ++ map (fun e => EPost (fst e)) (b_post (h_b h)))
+    /\ Forall is_prepare_event prep /\ (length prep <= 1)%nat /\ Forall is_present_event pres.
 Proof.
   intros Htot. unfold serve.
-  pose proof (resolve_prime_state (b_prime b) (path, None)) as Hs.
-  destruct (resolve_prime (b_prime b) (path, None)) as [st tr1]. cbn [fst snd] in *. subst st.
-  set (st := prime_state (b_prime b) (path, None)).
-  destruct (resolve_prepare (b_single b) (b_prepare_fn b) st) as [resp tr2]. cbn [snd].
-  set (sb := match resp with Some body => (200, body) | None => (404, []) end).
-  destruct sb as [status body] eqn:Esb.
-  unfold resolve_present. destruct (Htot body) as [r Hr]. rewrite Hr.
-  destruct r as [p|].
-  - exists status, (p_body p), (present_events (b_present_fn b) (b_present_file b) (b_present_internal b) (fst st) (p_entries p)).
-    split; [|apply present_events_are]. rewrite resolve_post_map. reflexivity.
-  - exists status, body, (present_events (b_present_fn b) (b_present_file b) (b_present_internal b) (fst st) []).
-    split; [|apply present_events_are]. rewrite resolve_post_map. reflexivity.
+  destruct (resolve_prime (b_prime (h_b h)) (q_uri r, None)) as [st tr1]. cbn [snd].
+  destruct (cache_hit h c (sanitize r) (q_method r) (key_uri st)) as [sb|].
+  - unfold send. cbn [fst]. rewrite resolve_post_map. unfold resolve_package.
+    destruct (respond (q_method r) (sanitize r) 1 sb) as [status body] eqn:E.
+    exists status, body, [], []. cbn [app length]. repeat split; try constructor. constructor.
+  - set (gen := match sanitize r with
+                | SanOk _ => handle_request h (q_method r) st
+                | SanUnsafe => (400, [], 1, [])
+                | SanRange => (416, [], 1, [])
+                end).
+    assert (Hgen : Forall is_prepare_event (snd gen) /\ (length (snd gen) <= 1)%nat).
+    { unfold gen. destruct (sanitize r); cbn [snd length]; try (split; [constructor|lia]).
+      unfold handle_request.
+      pose proof (resolve_prepare_events (b_single (h_b h)) (b_prepare_fn (h_b h)) st) as HF.
+      assert (HL : (length (snd (resolve_prepare (b_single (h_b h)) (b_prepare_fn (h_b h)) st)) <= 1)%nat).
+      { unfold resolve_prepare. destruct (assoc _ _); [cbn [snd length]; lia|].
+        destruct (first_match _ _) as [[i hh]|]; cbn [snd length]; lia. }
+      destruct (resolve_prepare (b_single (h_b h)) (b_prepare_fn (h_b h)) st) as [resp tr]. cbn [snd] in *. split; assumption. }
+    destruct gen as [[[status body] pref] tr2]. cbn [snd] in Hgen. destruct Hgen as [HP HL].
+    unfold resolve_present. destruct (Htot body) as [x Hx]. rewrite Hx.
+    destruct x as [p|]; unfold send; cbn [fst]; rewrite resolve_post_map; unfold resolve_package.
+    + destruct (respond (q_method r) (sanitize r) pref (status, p_body p)) as [s' b'] eqn:E.
+      exists s', b', tr2, (present_events (b_present_fn (h_b h)) (b_present_file (h_b h)) (b_present_internal (h_b h)) (fst st) (p_entries p)).
+      split; [|split; [exact HP|split; [exact HL|apply present_events_are]]]. reflexivity.
+    + destruct (respond (q_method r) (sanitize r) pref (status, body)) as [s' b'] eqn:E.
+      exists s', b', tr2, (present_events (b_present_fn (h_b h)) (b_present_file (h_b h)) (b_present_internal (h_b h)) (fst st) []).
+      split; [|split; [exact HP|split; [exact HL|apply present_events_are]]]. reflexivity.
+Qed.
+
+(** A response served from the cache runs neither Prepare nor Present, and leaves the cache as it is. *)
+Lemma cache_hit_skips_model parse (h : hostcfg) (c : cache) (r : creq) st sb :
+  fst (resolve_prime (b_prime (h_b h)) (q_uri r, None)) = st ->
+  cache_hit h c (sanitize r) (q_method r) (key_uri st) = Some sb ->
+  serve parse h c r =
+  ((Ok (respond (q_method r) (sanitize r) 1 sb),
+    snd (resolve_prime (b_prime (h_b h)) (q_uri r, None))
+    ++ map (fun e => EPackage (fst e)) (b_package (h_b h)) ++ map (fun e => EPost (fst e)) (b_post (h_b h))), c).
+Proof.
+  intros Hst Hhit. unfold serve. destruct (resolve_prime (b_prime (h_b h)) (q_uri r, None)) as [st' tr1].
+  cbn [fst snd] in *. subst st'. rewrite Hhit. unfold send. rewrite resolve_post_map. reflexivity.
 Qed.
 
 (** Present: when the body's first line parses to [entries] with body [rest], the Present
     stage runs the predicate-bound extensions, the file-extension one, then the registered
     extensions of the line in line order with their arguments, and hands on [rest]. *)
-Lemma present_line_order_model parse pfns pfile pint path body entries ds rest :
+Lemma present_line_order_model parse pfns pfile pint uri body entries ds rest :
   parse body = Ok (Some {| p_entries := entries; p_data_start := ds; p_body := rest |}) ->
-  resolve_present parse pfns pfile pint path body =
+  resolve_present parse pfns pfile pint uri body =
   Ok (rest,
-      map (fun x => EPresentFn (fst x)) (filter (fun x => snd x path) pfns)
-      ++ (match path_extension path with Some e => if bmem e pfile then [EPresentFile e] else [] | None => [] end)
+      map (fun x => EPresentFn (fst x)) (filter (fun x => snd x uri) pfns)
+      ++ (match path_extension (uri_path uri) with Some e => if bmem e pfile then [EPresentFile e] else [] | None => [] end)
       ++ map (fun e => EPresentInternal (fst e) (snd e)) (filter (fun e => bmem (fst e) pint) entries)).
 Proof. intros H. unfold resolve_present. rewrite H. reflexivity. Qed.
+
+(** ---- the hash maps: insert replaces, remove deletes exactly that key ---- *)
+Lemma assoc_map_remove {X} (m : list (bytes * X)) k q :
+  assoc q (map_remove k m) = if beq k q then None else assoc q m.
+Proof.
+  induction m as [|[k' v] m IH]; cbn [map_remove filter assoc fst].
+  - destruct (beq k q); reflexivity.
+  - fold (map_remove k m). destruct (beq k' k) eqn:E; cbn [negb].
+    + apply beq_eq in E. subst k'. rewrite IH. destruct (beq k q); reflexivity.
+    + cbn [assoc]. rewrite IH. destruct (beq k' q) eqn:E2; [|reflexivity].
+      apply beq_eq in E2. subst k'. destruct (beq k q) eqn:E3; [|reflexivity].
+      apply beq_eq in E3. subst q. rewrite beq_refl in E. discriminate.
+Qed.
+Lemma assoc_map_insert {X} (m : list (bytes * X)) k v q :
+  assoc q (map_insert k v m) = if beq k q then Some v else assoc q m.
+Proof.
+  unfold map_insert. cbn [assoc]. destruct (beq k q) eqn:E; [reflexivity|].
+  rewrite assoc_map_remove, E. reflexivity.
+Qed.
 
 (** ---- registry edits, then requests: the macros build the host the reference map predicts ---- *)
 Definition pc_desc (c : pconfig) : Prop := Forall desc (pc_lists c).
 
-Lemma nth_desc' (ls : list (list (Z * payload))) k : Forall desc ls -> desc (nth k ls []).
+Lemma nth_desc' {A} (ls : list (list (Z * A))) k : Forall desc ls -> desc (nth k ls []).
 Proof.
   intros HF. revert k. induction HF as [|x ls Hx HF IH]; intros [|k]; cbn [nth]; try constructor; auto.
 Qed.
-Lemma upd_desc' (ls : list (list (Z * payload))) k l' : Forall desc ls -> desc l' -> Forall desc (upd k (fun _ => l') ls).
+Lemma upd_desc' {A} (ls : list (list (Z * A))) k l' : Forall desc ls -> desc l' -> Forall desc (upd k (fun _ => l') ls).
 Proof.
   intros HF Hl. revert k. induction HF as [|x ls Hx HF IH]; intros [|k]; cbn [upd]; constructor; auto.
 Qed.
@@ -184,7 +237,7 @@ Qed.
 Lemma pconfig_step_refines c e : pc_desc c ->
   pconfig_step model_step c e = pconfig_step ref_step c e /\ pc_desc (pconfig_step ref_step c e).
 Proof.
-  intros Hc. unfold pconfig_step. destruct (Nat.ltb (pe_kind e) 5).
+  intros Hc. destruct e as [mark e]. unfold pconfig_step. destruct (Nat.ltb (pe_kind e) 5).
   - pose proof (nth_desc' (pc_lists c) (pe_kind e) Hc) as Hd.
     rewrite (step_refines _ _ Hd). split; [reflexivity|].
     destruct (ref_step _ _) as [l'| |] eqn:E; try exact Hc.
@@ -203,11 +256,11 @@ Qed.
 Lemma pconfig_empty_desc : pc_desc pconfig_empty.
 Proof. unfold pc_desc. cbn. repeat constructor. Qed.
 
-Lemma run_order_after_edits_model parse es paths :
-  run_scenario model_step parse es paths = run_scenario ref_step parse es paths /\
+Lemma run_order_after_edits_model parse es o rs :
+  run_scenario model_step parse es o rs = run_scenario ref_step parse es o rs /\
   pc_desc (pconfig_build ref_step es).
 Proof.
   unfold run_scenario, pconfig_build.
-  destruct (pconfig_build_refines_from es pconfig_empty pconfig_empty_desc) as [E Hd].
+  destruct (pconfig_build_refines_from (number 0 es) pconfig_empty pconfig_empty_desc) as [E Hd].
   rewrite E. split; [reflexivity|exact Hd].
 Qed.
